@@ -37,6 +37,9 @@ type Proof struct {
 }
 
 func (p *Proof) IsValid(public Public) bool {
+	if p == nil || public.N == nil {
+		return false
+	}
 	if !arith.IsValidNatModN(public.N.N(), p.Z) {
 		return false
 	}
